@@ -365,6 +365,9 @@ class World:
             return self.gen_limit_move(ms, p, limits, base)
         if q < 0.6:
             payload = gen_dt.mutate(p['spec'], valid, rng)
+            if p['spec']['type'] in ('array', 'tuple') and rng.random() < 0.35:
+                # other things that have a length: a text or an object where a list is due
+                payload = rng.choice(['', {}, 'ab', {'a': 1}, 'a', {'a': 1, 'b': 2}])
             try:
                 payload = json.loads(json.dumps(payload))
             except Exception:
